@@ -272,6 +272,9 @@ func StatementProcessor(gs *gripql.GraphStatement, db gdbi.GraphInterface, ps *p
 		if ps.LastType == gdbi.NoData {
 			return nil, fmt.Errorf(`"mark" statement is not valid at the beginning of a traversal`)
 		}
+		if ps.LastType != gdbi.VertexData && ps.LastType != gdbi.EdgeData {
+			return nil, fmt.Errorf(`"mark" statement is only valid for edge or vertex types not: %s`, ps.LastType.String())
+		}
 		if stmt.As == "" {
 			return nil, fmt.Errorf(`"mark" statement cannot have an empty name`)
 		}
@@ -301,6 +304,11 @@ func StatementProcessor(gs *gripql.GraphStatement, db gdbi.GraphInterface, ps *p
 		if ps.LastType != gdbi.VertexData && ps.LastType != gdbi.EdgeData {
 			return nil, fmt.Errorf(`"select" statement is only valid for edge or vertex types not: %s`, ps.LastType.String())
 		}
+		for _, mark := range stmt.Select.Marks {
+			if _, ok := ps.MarkTypes[mark]; !ok {
+				return nil, fmt.Errorf(`"select" statement references mark '%s' that has not been defined`, mark)
+			}
+		}
 		switch len(stmt.Select.Marks) {
 		case 0:
 			return nil, fmt.Errorf(`"select" statement has an empty list of mark names`)
@@ -327,6 +335,9 @@ func StatementProcessor(gs *gripql.GraphStatement, db gdbi.GraphInterface, ps *p
 		return &Path{stmt.Path.AsSlice()}, nil
 
 	case *gripql.GraphStatement_Unwind:
+		if ps.LastType != gdbi.VertexData && ps.LastType != gdbi.EdgeData {
+			return nil, fmt.Errorf(`"unwind" statement is only valid for edge or vertex types not: %s`, ps.LastType.String())
+		}
 		return &Unwind{stmt.Unwind}, nil
 
 	case *gripql.GraphStatement_Fields:
